@@ -298,13 +298,115 @@ def check_c35(ctx):
     run_cases(ctx, cases, {"C35"}, "C35")
 
 
-PROPS = {"C33": check_c33, "C34": check_c34, "C35": check_c35}
+# ---------------------------------------------------------------------------- C38
+def judge_resp(script, exp, o):
+    """Compare the decoded response with what ConnResp.tla dictates; returns [(sig, detail)]."""
+    out = []
+    if o.get("hang") or o.get("panic"):
+        return [("hang" if o.get("hang") else "panic", str(o.get("panic")))]
+    if o["status"] != exp["status"]:
+        out.append(("status/%s" % exp["status"], "got %s" % o["status"]))
+    if [p for p in o["pseudo"]] != [[":status", str(o["status"])]]:
+        out.append(("pseudo", str(o["pseudo"])))
+    names = [h[0] for h in o["hdrs"]] + [h[0] for h in o["trailers"]]
+    for n in names:
+        if n != n.lower():
+            out.append(("field-case/%s" % n.lower(), n))
+        if n.lower() in exp["banned"]:
+            out.append(("connection-specific/%s" % n.lower(), n))
+    have = {(h[0], h[1]) for h in o["hdrs"]}
+    mine = set()
+    for f in exp["fields"]:
+        mine.add(f["name"])
+        if f["present"] and (f["name"], f["val"]) not in have:
+            out.append(("field-missing/%s" % f["name"], "%s: %s not among %s" % (f["name"], f["val"], sorted(have))))
+    for n, v in o["hdrs"]:
+        if n.lower() not in mine and n.lower() not in exp["auto"] and n.lower() not in exp["banned"]:
+            out.append(("field-extra/%s" % n.lower(), "%s: %s" % (n, v)))
+    if o["body_len"] != exp["body"] or not o["body_ok"]:
+        out.append(("body/%s" % ("head" if script["method"] == "HEAD" else script["status"]),
+                    "got %d octets (pattern ok=%s), expected %d" % (o["body_len"], o["body_ok"], exp["body"])))
+    cl = [v for n, v in o["hdrs"] if n == "content-length"]
+    if cl and script["method"] != "HEAD" and exp["status"] not in (204, 304) and cl[0] != str(o["body_len"]):
+        out.append(("content-length", "%s vs body %d" % (cl, o["body_len"])))
+    if sorted((t[0], t[1]) for t in o["trailers"]) != sorted((t["name"], t["val"]) for t in exp["trailers"]):
+        out.append(("trailers/%s" % script["trailers"], "got %s expected %s" % (o["trailers"], exp["trailers"])))
+    fr = [f for f in o["frames"] if f != "I"]
+    es = [e for f, e in zip(o["frames"], o["es"]) if f != "I"]
+    shape = "".join(fr)
+    import re
+    if not re.fullmatch(r"HD*T?", shape):
+        out.append(("frame-order", shape))
+    if es.count(True) != 1 or not es or not es[-1]:
+        out.append(("endstream", "%s es=%s" % (shape, es)))
+    if exp["trailers"] and not shape.endswith("T"):
+        out.append(("trailers-after-body", shape))
+    return out
+
+
+def resp_sig(script, what):
+    items = "+".join(sorted({h["name"].lower() for h in script["hdrs"]})) or "-"
+    return "%s/%s/%s/%s" % (what, script["method"], script["status"], items)
+
+
+def run_resp(ctx, cases, label):
+    for i, c in enumerate(cases):
+        c["id"] = i + 1
+    res = ctx.harness("h2conn", ["resp"], cases=[{"id": c["id"], "script": c["script"]} for c in cases], timeout=1500)
+    crash = [r for r in res if "_harness_exit" in r]
+    if crash or not [r for r in res if r.get("summary")]:
+        raise vlib.MachineryError("h2conn resp harness died: %s" % (crash or res[-1:]))
+    obs = {r["id"]: r["obs"] for r in res if "obs" in r}
+    n = 0
+    for c in cases:
+        o = obs.get(c["id"])
+        if o is None:
+            raise vlib.MachineryError("no observation for case %s" % c["id"])
+        ctx.count(c["script"])
+        bad = judge_resp(c["script"], c["expect"], o)
+        if [b for b in bad if b[0] == "hang"]:
+            raise vlib.MachineryError("response script did not complete: %s" % c["script"])
+        for what, det in bad:
+            n += 1
+            ctx.report(resp_sig(c["script"], what), "script %s: %s; observed %s" % (c["script"], det, json.dumps(o)[:900]),
+                       case={"script": c["script"], "expect": c["expect"]}, harness="h2conn", cmd="resp")
+    ctx.traces(len(cases))
+    for c in cases[:2]:
+        ctx.sample({"script": c["script"], "expect": {k: c["expect"][k] for k in ("status", "body", "trailers")},
+                    "observed": {k: obs[c["id"]][k] for k in ("status", "hdrs", "frames", "es", "body_len", "trailers")}})
+    return n
+
+
+def check_c38(ctx):
+    q = ctx.tier == "quick"
+    d = {"METHODS": '{"GET","HEAD"}', "STATUSES": "{0,200,204,304,404}", "MAXITEMS": 1 if q else 2,
+         "PLANS": "{1,2,4,6,7}" if q else "{1,2,3,4,5,6,7}", "TRAILERS": '{"none","declared","prefix"}',
+         "CLS": '{"none","exact"}'}
+    ctx.cov["constants"]["ConnResp"] = d
+    r = ctx.tlc(SPEC, "ConnResp", "ConnResp.cfg", mode="mc", defines=d, timeout=1500)
+    if not r.ok:
+        raise vlib.MachineryError("ConnResp failed: %s %s" % (r.error or r.violation, r.out[-600:]))
+    cases = [c for c in r.cases if "script" in c]
+    if not cases:
+        raise vlib.MachineryError("ConnResp printed no scripts")
+    ctx.cov["exhaustive"] = True
+    ctx.cov["rule"] = ("cases = every handler script ConnResp.tla enumerates within the constants (method x status x "
+                       "header-item subsets incl. connection-specific, upper-case and multi-valued fields x write/flush "
+                       "plans x trailer declaration modes x declared Content-Length), each run in a handler of the real "
+                       "bfe_http2 server; the response decoded by a standard HTTP/2 peer is compared with the TLC-printed "
+                       "expectation (status, fields lower-cased, connection-specific removed, body, trailers, END_STREAM).")
+    run_resp(ctx, cases, "C38")
+
+
+PROPS = {"C33": check_c33, "C34": check_c34, "C35": check_c35, "C38": check_c38}
 
 
 def replay(ctx, pid, rep):
     case = dict(rep["case"])
     if rep.get("cmd") == "run":
         run_cases(ctx, [case], {"C33", "C34", "C35"} if pid in ("C33", "C34", "C35") else {pid}, "replay")
+    elif rep.get("cmd") == "resp":
+        run_resp(ctx, [case], "replay")
     rc = ctx.finish()
     print("replay: %s" % ("violation reproduced" if rc == 1 else "no violation on the current tree"))
     return rc
